@@ -225,9 +225,12 @@ def execute(scn):
   mjw.kinematics(m, d)
   c = util.Cmp()
   gtype = [int(t) for t in mjm.geom_type]
-  names = {}
-  for g1, g2 in itertools.combinations(range(mjm.ngeom), 2):
-    names[(g1, g2)] = names[(g2, g1)] = cc.pair_name(mjm.geom_type[g1], mjm.geom_type[g2])
+
+  class _Names:
+    def __getitem__(self, k):
+      return cc.pair_name(mjm.geom_type[k[0]], mjm.geom_type[k[1]]) + ("(self)" if k[0] == k[1] else "")
+
+  names = _Names()
 
   def run(bp, flt):
     m.opt.broadphase = bp
